@@ -102,6 +102,7 @@ type interpreter struct {
 	funcs     map[*ssa.Function]int
 	built     map[*ssa.Package]bool
 	panicStack []string
+	initCaller *frame
 }
 
 type deferred struct {
@@ -137,6 +138,7 @@ func (fr *frame) get(key ssa.Value) value {
 	case *ssa.Const:
 		return constValue(key)
 	case *ssa.Global:
+		fr.i.initCaller = fr
 		return fr.i.global(key)
 	}
 	if r, ok := fr.env[key]; ok {
@@ -543,7 +545,7 @@ func callSSABody(i *interpreter, caller *frame, callpos token.Pos, fn *ssa.Funct
 	// look at fn.Blocks before the owning package's Build has returned.
 	i.buildFunc(fn)
 	if fn.Blocks == nil {
-		unsupported("no code for function: %s", fn.String())
+		(&frame{i: i, caller: caller, fn: fn}).unsupportedAt("no code for function: %s", fn.String())
 	}
 	i.callDepth++
 	if i.callDepth > 4000 {
